@@ -276,6 +276,66 @@ theorem C05_relay_with_history : RelayInv (runActs cfg {} as) := (history_inv cf
 
 end Statements
 
+/-! ## the version gate is sufficient (C04, C06, C08)
+
+An event on a status topic whose version is the run's current version describes the run's persisted record: that record is at
+the topic's status and Initiated or Running. So a step (or timer) function that passed the version gate is invoked at its own
+status, on a run that is neither stopped nor finished - in every reachable state, whatever was redelivered, duplicated or
+rewound. (This is why the `Stopped()` test behind the version gate in `stepConsumer` never fires on current reads.) -/
+
+theorem topicKind_status {rs : Int} (h : Gen.outboxTopicKind rs = 0) (h1 : 1 ≤ rs) (h7 : rs ≤ 7) : rs = 1 ∨ rs = 2 := by
+  have : rs = 1 ∨ rs = 2 ∨ rs = 3 ∨ rs = 4 ∨ rs = 5 ∨ rs = 6 ∨ rs = 7 := by omega
+  rcases this with rfl | rfl | rfl | rfl | rfl | rfl | rfl <;> first | exact Or.inl rfl | exact Or.inr rfl | (revert h; decide)
+
+theorem chain_version_inj {cfg : Cfg} {l : List Rec} (hc : Chain cfg l) {a b : Rec} (ha : a ∈ l) (hb : b ∈ l)
+    (hv : a.version = b.version) : a = b := by
+  obtain ⟨k, hk, rfl⟩ := List.getElem_of_mem ha
+  obtain ⟨k', hk', rfl⟩ := List.getElem_of_mem hb
+  have e1 := chain_version l k l[k] hc (List.getElem?_eq_getElem hk)
+  have e2 := chain_version l k' l[k'] hc (List.getElem?_eq_getElem hk')
+  rw [hv] at e1
+  have : k = k' := by womega
+  subst this; rfl
+
+section Gate
+variable (cfg : Cfg) (h1 : OneTimeout cfg) (as : List Act) (hf : ∀ a ∈ as, FreshAct a)
+include h1 hf
+
+theorem C04_current_announcement_describes_head (e : Event) (he : e ∈ (runActs cfg {} as).log) (hk : e.topicKind = 0)
+    (w : Rec) (hw : (runActs cfg {} as).cur e.runId = some w) (hv : w.version = e.version) :
+    w.status = e.topicStatus ∧ (w.runState = 1 ∨ w.runState = 2) ∧ Routing.route w = core e := by
+  have hi := history_inv cfg h1 as hf
+  obtain ⟨w0, ⟨run, hrun, hw0⟩, hc⟩ := hi.relay.log_written e he
+  obtain ⟨i, hlt, hget⟩ := List.getElem_of_mem hrun
+  have hx : (runActs cfg {} as).runs[i]? = some run := by rw [List.getElem?_eq_getElem hlt, hget]
+  have hrunok := hi.hist _ _ hx
+  have hid0 : w0.runId = i := (hrunok.ids w0 hw0).1
+  have hrid : e.runId = w0.runId := by
+    have : e.runId = (Routing.route w0).runId := by rw [← hc]; rfl
+    exact this
+  -- the head of run e.runId is in the same history
+  have hw' : curR (runActs cfg {} as).runs e.runId = some w := hw
+  obtain ⟨⟨x, t, hx', hl⟩, _⟩ := isHead_of_curR hi.hist hw'
+  have hidw : w.runId = e.runId := (isHead_of_curR hi.hist hw').2
+  rw [hidw, hrid, hid0, hx] at hx'
+  cases hx'
+  have hwin : w ∈ run.hist := by rw [hl]; simp
+  have hver : w.version = w0.version := by
+    have : e.version = (Routing.route w0).version := by rw [← hc]; rfl
+    rw [hv, this]; rfl
+  have heq : w = w0 := chain_version_inj hrunok.chain hwin hw0 hver
+  subst heq
+  have hst : e.topicStatus = w.status := by
+    have : e.topicStatus = (Routing.route w).topicStatus := by rw [← hc]; rfl
+    exact this
+  have hkind : Gen.outboxTopicKind w.runState = 0 := by
+    have : e.topicKind = (Routing.route w).topicKind := by rw [← hc]; rfl
+    rw [hk] at this; exact this.symm
+  have hrec := hrunok.recs w hwin
+  exact ⟨hst.symm, topicKind_status hkind hrec.lo hrec.hi, hc.symm⟩
+
+end Gate
+
 /-! ## non-vacuity, and why every hypothesis is needed
 
 One configuration (a step with a self-loop and a callback on status 1) and one with two timeouts on a status. The fresh
@@ -352,8 +412,8 @@ theorem two_timeouts_break_history :
 `C01_no_stranded_step`: in every reachable state, every run whose persisted record is Initiated or Running has the
 announcement of exactly that record pending - in the outbox, or published at a position that no step-consumer process of the
 record's status which handles it (its shard) has passed. Hypotheses beyond `history_inv`'s: step functions do not answer with a
-skip value (a skip consumes the event by design), no adversarial cursor rewind, no consume lag on steps (a consumer waiting
-for the lag holds an event in hand; not covered). Together with `history_inv` (the pending announcement is of the CURRENT
+skip value (a skip consumes the event by design) and no adversarial cursor rewind. A consumer parked in the consume-lag wait
+holds the first event of its topic at or after its cursor (`LagOk`), which is what it will deliver. Together with `history_inv` (the pending announcement is of the CURRENT
 version, so the version gate lets it through) and the relay invariant this is the safety half of "every run ends as in a
 fault-free execution": whatever faults happened, the work that remains is still queued in front of a consumer that will take
 it. The liveness half (fair scheduling, eventually succeeding functions) is enumerated, not proved (sim-recovery). -/
@@ -366,7 +426,7 @@ def FreshAct2 : Act → Prop
 theorem freshAct_of_2 {a : Act} (h : FreshAct2 a) : FreshAct a := by
   cases a <;> simp only [FreshAct2, FreshAct] at * <;> first | exact h.1 | exact h | trivial
 
-theorem stepAct_tok {cfg : Cfg} (h1 : OneTimeout cfg) (hlag : NoStepLag cfg) (s : Sys) (a : Act) (hf : FreshAct2 a)
+theorem stepAct_tok {cfg : Cfg} (h1 : OneTimeout cfg) (s : Sys) (a : Act) (hf : FreshAct2 a)
     (hi : Inv cfg s) (ht : TokInv s) : TokInv (stepAct cfg s a).sys := by
   cases a with
   | step p env =>
@@ -375,7 +435,8 @@ theorem stepAct_tok {cfg : Cfg} (h1 : OneTimeout cfg) (hlag : NoStepLag cfg) (s 
     · cases hp : IsStep p with
       | true =>
         cases p <;> simp [IsStep] at hp
-        exact procOp_step_tok hf.1.2 (hf.2 rfl) hlag _ _ _ { sys := s, stale := env.stale, isApi := false } hi hf.1.1 ht
+        · exact procOp_step_tok hf.1.2 (hf.2 rfl) _ _ _ { sys := s, stale := env.stale, isApi := false } hi hf.1.1 ht
+        · exact procOp_delete_tok { sys := s, stale := env.stale, isApi := false } hi hf.1.1 ht
       | false => exact (procOp_other_RT (cfg := cfg) p hp env { sys := s, stale := env.stale, isApi := false } ⟨hi.relay, ht⟩).2
     · exact ht
   | lease p => exact leaseLossOp_tok (cfg := cfg) p {} { sys := s, stale := 0, isApi := false } ht
@@ -402,19 +463,27 @@ theorem stepAct_tok {cfg : Cfg} (h1 : OneTimeout cfg) (hlag : NoStepLag cfg) (s 
     · exact ht.relaySend _
     · exact ht
 
-theorem token_inv {cfg : Cfg} (h1 : OneTimeout cfg) (hlag : NoStepLag cfg) : ∀ (as : List Act) (s : Sys), (∀ a ∈ as, FreshAct2 a) →
+theorem token_inv {cfg : Cfg} (h1 : OneTimeout cfg) : ∀ (as : List Act) (s : Sys), (∀ a ∈ as, FreshAct2 a) →
     Inv cfg s → TokInv s → Inv cfg (runActs cfg s as) ∧ TokInv (runActs cfg s as)
   | [], _, _, hi, ht => ⟨hi, ht⟩
   | a :: as, s, hf, hi, ht =>
     have ha := hf a (List.mem_cons_self ..)
-    token_inv h1 hlag as _ (fun b hb => hf b (List.mem_cons_of_mem _ hb)) (stepAct_inv h1 s a (freshAct_of_2 ha) hi)
-      (stepAct_tok h1 hlag s a ha hi ht)
+    token_inv h1 as _ (fun b hb => hf b (List.mem_cons_of_mem _ hb)) (stepAct_inv h1 s a (freshAct_of_2 ha) hi)
+      (stepAct_tok h1 s a ha hi ht)
 
 /-- **No run is stranded at a step.** -/
-theorem C01_no_stranded_step (cfg : Cfg) (h1 : OneTimeout cfg) (hlag : NoStepLag cfg) (as : List Act) (hf : ∀ a ∈ as, FreshAct2 a)
+theorem C01_no_stranded_step (cfg : Cfg) (h1 : OneTimeout cfg) (as : List Act) (hf : ∀ a ∈ as, FreshAct2 a)
     (rid : RunId) (w : Rec) (hw : (runActs cfg {} as).cur rid = some w) (hl : w.runState = 1 ∨ w.runState = 2) :
     PendingAt (runActs cfg {} as) w :=
-  (token_inv h1 hlag as {} hf ⟨HistInv.init cfg, RelayInv.init, fun i j x y _ hx => by simp at hx⟩ TokInv.init).2.pending rid w hw hl
+  (token_inv h1 as {} hf ⟨HistInv.init cfg, RelayInv.init, fun i j x y _ hx => by simp at hx⟩ TokInv.init).2.pending rid w hw hl
+
+/-- C15: **no accepted deletion request is stranded**: in every reachable state a run persisted RequestedDataDeleted has the
+announcement of exactly that record in the outbox, or published at an index the delete consumer has not passed (same
+hypotheses; the custom delete function may fail any number of times). -/
+theorem C15_no_stranded_request (cfg : Cfg) (h1 : OneTimeout cfg) (as : List Act) (hf : ∀ a ∈ as, FreshAct2 a)
+    (rid : RunId) (w : Rec) (hw : (runActs cfg {} as).cur rid = some w) (h7 : w.runState = 7) :
+    PendingDel (runActs cfg {} as) w :=
+  (token_inv h1 as {} hf ⟨HistInv.init cfg, RelayInv.init, fun i j x y _ hx => by simp at hx⟩ TokInv.init).2.pendingDel rid w hw h7
 
 /-- non-vacuity: after trigger and relay the announcement is published and ahead of the (not yet started) consumer; after the
 consumer handled it the run is Completed and nothing is required any more -/
